@@ -220,10 +220,15 @@ let ops_c04 = [
   "sub_args", (fun f -> "OK " ^ print_val (sub_args (parse_val f.(1)) (parse_val f.(2))));
 ]
 
+(* ---------------- C06 ---------------- *)
+let ops_c06 = [
+  "mstep", (fun f -> show_res (run opf_exec (nat_of_int 20000) (start (parse_val f.(1)) (parse_val f.(2)))));
+]
+
 (*OPS-INSERT*)
 
 let all_ops : (string, string array -> string) Hashtbl.t = Hashtbl.create 64
-let () = List.iter (fun l -> List.iter (fun (k, v) -> Hashtbl.replace all_ops k v) l) [ops_c20; ops_c08; ops_c07; ops_c04 (*OPS-LIST*)]
+let () = List.iter (fun l -> List.iter (fun (k, v) -> Hashtbl.replace all_ops k v) l) [ops_c20; ops_c08; ops_c07; ops_c04; ops_c06 (*OPS-LIST*)]
 
 let dispatch (f : string array) : string =
   match Hashtbl.find_opt all_ops f.(0) with
